@@ -291,6 +291,7 @@ def operators(vrp):
         ("worst_removal", lambda s, g: vrp.worst_removal(s, g, 0.3)),
         ("related_removal", lambda s, g: vrp.related_removal(s, g, 0.4)),
         ("route_removal", lambda s, g: vrp.route_removal(s, g)),
+        ("route_removal2", lambda s, g: vrp.route_removal(s, g, 2)),
         ("sync_removal", lambda s, g: vrp.sync_removal(s, g)),
         ("greedy_insertion", lambda s, g: vrp.greedy_insertion(s, g)),
         ("regret_insertion2", lambda s, g: vrp.regret_insertion(s, g, 2)),
